@@ -341,6 +341,8 @@ func (s *Service) ProtocolVersion() string {
 //
 //	nc := service.Conn().(*nats.Conn)
 func (s *Service) Conn() Conn {
+	s.mu.Lock()
+	defer s.mu.Unlock()
 	return s.nc
 }
 
@@ -663,6 +665,7 @@ func (s *Service) serve(nc Conn) error {
 	// Initialize fields
 	inCh := make(chan *nats.Msg, s.inChannelSize)
 	workCh := make(chan *work, 1)
+	s.mu.Lock()
 	s.nc = nc
 	s.inCh = inCh
 	s.workcond = sync.Cond{L: &s.mu}
@@ -670,6 +673,7 @@ func (s *Service) serve(nc Conn) error {
 	s.workqueue = s.workbuf[:0]
 	s.rwork = make(map[string]*work, s.inChannelSize)
 	s.queryTQ = timerqueue.New(s.queryEventExpire, s.queryDuration)
+	s.mu.Unlock()
 
 	// Start workers
 	s.wg.Add(s.workerCount)
@@ -716,8 +720,10 @@ func (s *Service) Shutdown() error {
 	// Wait for all workers to be done
 	s.wg.Wait()
 
+	s.mu.Lock()
 	s.inCh = nil
 	s.nc = nil
+	s.mu.Unlock()
 
 	atomic.StoreInt32(&s.state, stateStopped)
 
@@ -1077,18 +1083,29 @@ func (s *Service) event(subj string, data interface{}) {
 	payload, err := json.Marshal(data)
 	if err == nil {
 		s.tracef("<-- %s: %s", subj, payload)
-		err = s.nc.Publish(subj, payload)
+		err = s.publish(subj, payload)
 	}
 	if err != nil {
 		s.errorf("Error sending event %s: %s", subj, err)
 	}
 }
 
+// publish publishes the payload on the connection. As events may be sent from
+// any goroutine, also while Shutdown is clearing the connection, the connection
+// is read holding the mutex, and errNotStarted is returned if it is cleared.
+func (s *Service) publish(subj string, payload []byte) error {
+	nc := s.Conn()
+	if nc == nil {
+		return errNotStarted
+	}
+	return nc.Publish(subj, payload)
+}
+
 // rawEvent publishes the payload on a subject, and logs it as an outgoing
 // event.
 func (s *Service) rawEvent(subj string, payload []byte) {
 	s.tracef("<-- %s: %s", subj, payload)
-	err := s.nc.Publish(subj, payload)
+	err := s.publish(subj, payload)
 	if err != nil {
 		s.errorf("Error sending event %s: %s", subj, err)
 	}
